@@ -2,6 +2,7 @@ package main
 
 import (
 	"fmt"
+	"os"
 	"strings"
 	"unicode/utf8"
 
@@ -67,7 +68,7 @@ func runC04(res *lib.Result, tier string, seed int64, args []string) error {
 	if tier == "thorough" {
 		nDocs, nProg = 200000, 20000
 	}
-	res.Rule = "documents in which identifiers are placed after arbitrary preceding tokens on the same line (plain / escaped / non-ASCII short strings, long-bracket strings and comments, tabs) with all line endings, plus grammar-derived programs and mutants: (1) real lexer token stream = lexer model (kinds, texts, lines, Locs), (2) for every identifier token the reported (line, start, end) vs the true LSP position of its bytes (S-col), every deviation must fall into a class computed from the line prefix; (3) every Loc in the parser's error list (the type-1 diagnostics) of near-valid programs is well formed (start <= end, line inside the document); (4) the AST of those programs, with the Loc of every node (declared names, attributes, parameters, member keys), equals the parser model's; non-trivial = an identifier with a non-empty line prefix; distinct by document"
+	res.Rule = "documents in which identifiers are placed after arbitrary preceding tokens on the same line (plain / escaped / non-ASCII short strings, long-bracket strings and comments, tabs) with all line endings, plus grammar-derived programs and mutants: (1) real lexer token stream = lexer model (kinds, texts, lines, Locs), (2) for every identifier token the reported (line, start, end) vs the true LSP position of its bytes (S-col), every deviation must fall into a class computed from the line prefix; (3) every Loc in the parser's error list (the type-1 diagnostics) of near-valid programs is well formed (start <= end, line inside the document); (5) end to end on ASCII programs: every range of diagnostics, outline entries (range and selectionRange), definition and references answers lies inside the document; (4) the AST of those programs, with the Loc of every node (declared names, attributes, parameters, member keys), equals the parser model's; non-trivial = an identifier with a non-empty line prefix; distinct by document"
 	drv, err := lib.StartDriver()
 	if err != nil {
 		return err
@@ -178,6 +179,84 @@ func runC04(res *lib.Result, tier string, seed int64, args []string) error {
 		}
 	}
 	_ = utf8.RuneLen
+	return c04E2E(res, tier, root)
+}
+
+// (5) end to end: every range the server sends for ASCII programs — diagnostics, outline (range and
+// selectionRange), definition, references, highlight — must lie inside the document: line below the
+// line count, columns not beyond the end of their line, start not after end
+func c04E2E(res *lib.Result, tier string, root *lib.Rng) error {
+	n := 25
+	if tier == "thorough" {
+		n = 1200
+	}
+	for wi := 0; wi < n; wi++ {
+		r := root.Fork(uint64(4400000 + wi))
+		var src string
+		if wi%2 == 0 {
+			src = genC19File(r, "q")
+		} else {
+			src = genScopeProgram(r)
+		}
+		dir := lib.ScratchDir(fmt.Sprintf("c04e%d", wi))
+		if err := lib.WriteWorkspace(dir, map[string]string{"main.lua": src}); err != nil {
+			return err
+		}
+		sess, err := lib.StartSession(dir, lib.AllChecksOptions())
+		if err != nil {
+			os.RemoveAll(dir)
+			return err
+		}
+		sess.DidOpen("main.lua", src)
+		sess.Sync()
+		lines := strings.Split(src, "\n")
+		check := func(what string, rg lib.Range) {
+			bad := ""
+			switch {
+			case rg.Start.Line < 0 || rg.End.Line >= len(lines) || rg.Start.Line >= len(lines):
+				bad = "line outside the document"
+			case rg.Start.Line > rg.End.Line || (rg.Start.Line == rg.End.Line && rg.Start.Character > rg.End.Character):
+				bad = "start after end"
+			case rg.Start.Character > len(lines[rg.Start.Line]) || rg.End.Character > len(lines[rg.End.Line]):
+				bad = "column beyond the end of its line"
+			}
+			res.Evaluations++
+			if bad != "" {
+				res.AddViolation("impl-vs-spec", fmt.Sprintf("%s: range %s is not inside the document (%s)", what, locOfRange(rg), bad), src, false)
+			}
+		}
+		for _, d := range sess.DiagView()["main.lua"] {
+			check("diagnostic "+lib.Trunc(d.Message, 60), d.Range)
+		}
+		if syms, err := sess.DocumentSymbol("main.lua"); err == nil {
+			var flat []flatSym
+			flattenSyms(syms, &flat)
+			for _, y := range flat {
+				check("outline range of "+y.raw, y.rg)
+				check("outline selectionRange of "+y.raw, y.sel)
+			}
+		}
+		for _, p := range identTokens("main.lua", src) {
+			if locs, err := sess.Definition("main.lua", p.line, p.col); err == nil {
+				for _, l := range locs {
+					if sess.Rel(l.URI) == "main.lua" {
+						check(fmt.Sprintf("definition of %s at %d:%d", p.name, p.line, p.col), l.Range)
+					}
+				}
+			}
+			if locs, err := sess.References("main.lua", p.line, p.col, true); err == nil {
+				for _, l := range locs {
+					if sess.Rel(l.URI) == "main.lua" {
+						check(fmt.Sprintf("reference of %s at %d:%d", p.name, p.line, p.col), l.Range)
+					}
+				}
+			}
+		}
+		res.Count("e2e|"+src, true)
+		res.Dist("e2e.ranges")
+		sess.Close()
+		os.RemoveAll(dir)
+	}
 	return nil
 }
 
